@@ -99,6 +99,7 @@ type CallEvent struct {
 	Args   []Val
 	Res    []Val
 	Seq    int
+	After  *State // state right after the call returned (only recorded for assumed interface contracts)
 }
 
 type State struct {
